@@ -1368,6 +1368,7 @@ void mmd_assign_ambidextrous_tokens_in_block(mmd_engine * e, token * block, size
 			case BLOCK_SETEXT_1:
 			case BLOCK_SETEXT_2:
 			case BLOCK_TABLE:
+			case BLOCK_TABLE_HEADER:
 			case BLOCK_TABLE_SECTION:
 			case TABLE_ROW:
 			case TABLE_CELL:
